@@ -93,7 +93,7 @@ def c02_relevant(kind, rec, case):
     if scen_of(case).startswith("tap"):
         # explanation tap: calls of the semantic minimiser (exact correspondence with the model) and
         # learned nogoods (implied by the model); the explanations themselves are C17's
-        return kind in ("semmin", "recmin", "nogood", "derive", "panic", "hang", "nonterm")
+        return kind in ("semmin", "recmin", "nogood", "derive", "nderive", "panic", "hang", "nonterm")
     if kind == "solset":
         # the end of an enumeration is an Unsatisfiable verdict on the model plus blocking clauses:
         # a missing solution means it came too early (foreign / repeated solutions are C01 / C03)
